@@ -345,12 +345,14 @@ def clipMaskedShape (A : Arith) : Shape ν → List IndexRange → Outcome (Shap
     | .panic k => .panic k
   | _, _ => .ok ([], [])
 
-/-- `map_indexes_by_range`: `mapped[d] = r.map(i)?` -/
-def mapIndexesByRange : List IndexRange → List Nat → Outcome (Option (List Nat))
-  | r :: rs, i :: is =>
-    match r.map i with
+/-- The loop shared by `map_indexes_by_range`, `map_indexes_by_mask(_checked)` and
+    `(try_)reverse_indexes`: map every coordinate with the function of its dimension, `None` as
+    soon as one of them is (`mapped[d] = f(i)?`). -/
+def mapCoords : List (Nat → Outcome (Option Nat)) → List Nat → Outcome (Option (List Nat))
+  | f :: fs, i :: is =>
+    match f i with
     | .ok (some j) =>
-      match mapIndexesByRange rs is with
+      match mapCoords fs is with
       | .ok (some js) => .ok (some (j :: js))
       | .ok none => .ok none
       | .panic k => .panic k
@@ -358,19 +360,14 @@ def mapIndexesByRange : List IndexRange → List Nat → Outcome (Option (List N
     | .panic k => .panic k
   | _, _ => .ok (some [])
 
+/-- `map_indexes_by_range`: `mapped[d] = r.map(i)?` -/
+def mapIndexesByRange (ranges : List IndexRange) : List Nat → Outcome (Option (List Nat)) :=
+  mapCoords (ranges.map fun r => r.map)
+
 /-- `map_indexes_by_mask` as used by the checked getters (pinned: `r.mask(i)`; repaired:
     `r.try_mask(i)?`) -/
-def mapIndexesByMask (A : Arith) : List IndexRange → List Nat → Outcome (Option (List Nat))
-  | r :: rs, i :: is =>
-    match A.maskChecked r i with
-    | .ok (some j) =>
-      match mapIndexesByMask A rs is with
-      | .ok (some js) => .ok (some (j :: js))
-      | .ok none => .ok none
-      | .panic k => .panic k
-    | .ok none => .ok none
-    | .panic k => .panic k
-  | _, _ => .ok (some [])
+def mapIndexesByMask (A : Arith) (masks : List IndexRange) : List Nat → Outcome (Option (List Nat)) :=
+  mapCoords (masks.map fun r => A.maskChecked r)
 
 /-- a `TensorRange` over `src` with (already clipped) ranges -/
 def TView.range (src : TView ν) (shape : Shape ν) (ranges : List IndexRange) : TView ν where
@@ -487,18 +484,12 @@ def maskFromStrict (A : Arith) (src : TView ν) (masks : List (ν × IndexRange)
 
 /-! ### the other adaptors (constructed with arguments their panicking constructors accept) -/
 
-/-- `reverse_indexes` / `try_reverse_indexes` as used by the checked getters -/
-def reverseIndexes (A : Arith) : List Nat → Shape ν → List Bool → Outcome (Option (List Nat))
-  | i :: is, (_, l) :: shape, r :: rs =>
-    match (if r then A.reverseChecked l i else .ok (some i)) with
-    | .ok (some j) =>
-      match reverseIndexes A is shape rs with
-      | .ok (some js) => .ok (some (j :: js))
-      | .ok none => .ok none
-      | .panic k => .panic k
-    | .ok none => .ok none
-    | .panic k => .panic k
-  | _, _, _ => .ok (some [])
+/-- `reverse_indexes` / `try_reverse_indexes` as used by the checked getters: reversed
+    dimensions map `i ↦ (length − 1) − i`, the others pass through -/
+def reverseIndexes (A : Arith) (indexes : List Nat) (shape : Shape ν) (reversed : List Bool) :
+    Outcome (Option (List Nat)) :=
+  mapCoords ((shape.zip reversed).map fun (d, r) =>
+    if r then A.reverseChecked d.2 else fun i => .ok (some i)) indexes
 
 /-- `TensorReverse::from(source, dimensions)`: `reversed[i] = dimensions.contains(shape[i].0)` -/
 def TView.reverse (A : Arith) (src : TView ν) (dimensions : List ν) : TView ν where
